@@ -812,3 +812,102 @@ Proof.
   unfold add_nofmt_data. destruct (lf_at st l) as [f|] eqn:Hf; intros H; inv H.
   exists f. eexists. split; [reflexivity|]. split; [unfold lf_at, set_lf in *; cbn [b_lfs]; eapply nth_error_upd_same; exact Hf | reflexivity].
 Qed.
+
+(* ---------- frame rule of the whole API: a call never touches the attribute states of existing objects, except the
+   assignment, which touches one object ---------- *)
+Definition attrs_at (st : bstate) (j : nat) := i_attrs (item_at st j).
+
+Lemma add_common_attrs hc st l ty name sn org dflt kw ds cast st' out j :
+  add_common hc st l ty name sn org dflt kw ds cast = (st', out) -> (j < length (b_items st))%nat ->
+  attrs_at st' j = attrs_at st j /\ (length (b_items st) <= length (b_items st'))%nat.
+Proof.
+  unfold add_common. destruct (lf_at st l) as [f|]; [|intros H; inv H; auto].
+  destruct (get_or_make_set st ty sn) as [st1 sid] eqn:Hg. pose proof (gms_items _ _ _ _ _ Hg) as Hit. intros H Hj.
+  assert (E2 : forall x, attrs_at (set_lf st1 l x) j = attrs_at st j /\ (length (b_items st) <= length (b_items (set_lf st1 l x)))%nat).
+  { intros x. unfold attrs_at, item_at. cbn [set_lf b_items]. rewrite Hit. auto. }
+  destruct name; try (inv H; apply E2).
+  destruct (hc && negb (hc_string s)); [inv H; apply E2|].
+  match type of H with context [match ?o with OK _ => _ | Err _ => _ end] => destruct o end; [|inv H; apply E2].
+  match type of H with context [set_attributes ?a ?b ?c ?d] => destruct (set_attributes a b c d) as [it|] end; inv H; [|apply E2].
+  unfold attrs_at, item_at, register. cbn [b_items set_lf]. rewrite Hit, app_length. split; [rewrite app_nth1 by exact Hj; reflexivity | lia].
+Qed.
+
+Lemma fill_some_attrs mine o : forall items k j,
+  i_attrs (nth j (fill_some mine o k items) dummy_item) = i_attrs (nth j items dummy_item).
+Proof.
+  induction items as [|it r IH]; intros k j; [reflexivity|].
+  cbn [fill_some]. destruct j; cbn [nth]; [|apply IH].
+  destruct (existsb (Nat.eqb k) mine); [|reflexivity]. unfold fill_origin. destruct (i_origin it); reflexivity.
+Qed.
+
+Lemma add_common_new_index hc st l ty name sn org dflt kw ds cast st' iid :
+  add_common hc st l ty name sn org dflt kw ds cast = (st', Accepted (Some iid)) -> iid = length (b_items st).
+Proof.
+  unfold add_common. destruct (lf_at st l) as [f|]; [|intros H; inv H].
+  destruct (get_or_make_set st ty sn) as [st1 sid] eqn:Hg. pose proof (gms_items _ _ _ _ _ Hg) as Hit. intros H.
+  destruct name; try solve [inv H].
+  destruct (hc && negb (hc_string s)); [inv H|].
+  match type of H with context [match ?o with OK _ => _ | Err _ => _ end] => destruct o end; [|inv H].
+  match type of H with context [set_attributes ?a ?b ?c ?d] => destruct (set_attributes a b c d) as [it|] end; inv H.
+  cbn [set_lf b_items]. rewrite Hit. reflexivity.
+Qed.
+
+Theorem step_attrs_frame ps st o ps' st' out j :
+  step ps st o = (ps', st', out) -> (j < length (b_items st))%nat ->
+  attrs_at st' j = attrs_at st j \/ (exists idx u r, o = OAssign j idx u r).
+Proof.
+  intros H Hj. destruct o; unfold step in H.
+  - left. unfold add_lf in H. destruct hid; try (inv H; reflexivity). destruct seq; try (inv H; reflexivity).
+    repeat match type of H with context [if ?c then _ else _] => destruct c end; inv H; reflexivity.
+  - left. destruct (add_common (p_hc ps) st l ty name sn origin default_origin kw None None) as [s1 o1] eqn:E.
+    injection H as <- <- <-. eapply add_common_attrs; eassumption.
+  - left. destruct (add_origin (p_hc ps) st l name sn origin kw) as [s1 o1] eqn:E. injection H as <- <- <-.
+    unfold add_origin in E. destruct (lf_at st l) as [f|]; [|inv E; reflexivity].
+    destruct (get_or_make_set st T_ORIGIN sn) as [st1 sid] eqn:Hg. pose proof (gms_items _ _ _ _ _ Hg) as Hit.
+    set (st2 := set_lf st1 l (try_add_set f T_ORIGIN sn sid)) in *.
+    assert (E2 : attrs_at st2 j = attrs_at st j) by (unfold attrs_at, item_at, st2; cbn [set_lf b_items]; rewrite Hit; reflexivity).
+    assert (Hj2 : (j < length (b_items st2))%nat) by (unfold st2; cbn [set_lf b_items]; rewrite Hit; exact Hj).
+    match type of E with context [match ?c with Some _ => _ | None => _ end = _] => destruct c end; [inv E; exact E2|].
+    match type of E with context [add_common ?a ?b ?c ?d ?e0 ?f0 ?g ?h ?i ?j0 ?k] =>
+      destruct (add_common a b c d e0 f0 g h i j0 k) as [st3 out3] eqn:Ea end.
+    destruct (add_common_attrs _ _ _ _ _ _ _ _ _ _ _ _ _ j Ea Hj2) as [E3 Hlen].
+    destruct out3 as [[iid|]|e3]; try (inv E; congruence). inv E.
+    (* iid is the index of the new item: length (b_items st2) > j *)
+    pose proof (add_common_new_index _ _ _ _ _ _ _ _ _ _ _ _ _ Ea) as Hiid.
+    assert (E4 : attrs_at (origin_fsn_default (p_hc ps) st3 sid iid) j = attrs_at st3 j).
+    { unfold origin_fsn_default. destruct (fst (nth _ (i_attrs (item_at st3 iid)) (SPNone, None))); try reflexivity.
+      destruct (p_hc ps); [|reflexivity]. unfold attrs_at, item_at, set_item. cbn [b_items]. rewrite nth_upd_other by lia. reflexivity. }
+    unfold origin_backfill. match goal with |- context [if ?c then _ else _] => destruct c end; [|congruence].
+    rewrite <- E2, <- E3, <- E4. unfold attrs_at, item_at. cbn [set_lf b_items].
+    apply fill_some_attrs.
+  - left. destruct (add_channel (p_hc ps) st l name sn origin kw bad_data data ds cast) as [s1 o1] eqn:E. injection H as <- <- <-.
+    unfold add_channel in E. destruct (lf_at st l) as [f|]; [|inv E; reflexivity].
+    destruct bad_data; [inv E; reflexivity|].
+    destruct (unique_dataset_name st f _ ds); [|inv E; reflexivity].
+    destruct cast as [[c|]|].
+    + destruct (add_common (p_hc ps) st l T_CHANNEL name sn origin default_origin kw (Some a) (Some c)) as [st3 out3] eqn:Ea.
+      destruct (add_common_attrs _ _ _ _ _ _ _ _ _ _ _ _ _ j Ea Hj) as [E3 _].
+      destruct out3 as [[iid|]|e3]; [destruct data; [destruct (lf_at st3 l)|]|..]; inv E; exact E3.
+    + destruct (get_or_make_set st T_CHANNEL sn) as [st1 sid] eqn:Hg. inv E. unfold attrs_at, item_at. cbn [set_lf b_items].
+      rewrite (gms_items _ _ _ _ _ Hg). reflexivity.
+    + destruct (add_common (p_hc ps) st l T_CHANNEL name sn origin default_origin kw (Some a) None) as [st3 out3] eqn:Ea.
+      destruct (add_common_attrs _ _ _ _ _ _ _ _ _ _ _ _ _ j Ea Hj) as [E3 _].
+      destruct out3 as [[iid|]|e3]; [destruct data; [destruct (lf_at st3 l)|]|..]; inv E; exact E3.
+  - left. destruct (add_frame (p_hc ps) st l name sn origin channels chan_attr_idx kw) as [s1 o1] eqn:E. injection H as <- <- <-.
+    unfold add_frame in E. destruct channels; try (inv E; reflexivity). destruct l0; [inv E; reflexivity|].
+    match type of E with context [if ?c then _ else _] => destruct c end; [|inv E; reflexivity].
+    eapply add_common_attrs; eassumption.
+  - destruct (Nat.eq_dec i j) as [->|Hne]; [right; eauto|]. left.
+    unfold assign in H. destruct (nth_error (b_items st) i); [|inv H; reflexivity].
+    match type of H with context [match ?x with OK _ => _ | Err _ => _ end] => destruct x end; inv H; [|reflexivity].
+    unfold attrs_at, item_at, set_item. cbn [b_items]. rewrite nth_upd_other by exact Hne. reflexivity.
+  - left. unfold add_nofmt_data in H. destruct (lf_at st l); inv H; reflexivity.
+  - left. inv H. reflexivity.
+  - left. inv H. reflexivity.
+  - left. destruct (p_stack ps); inv H; reflexivity.
+  - left. unfold set_origin in H. destruct (nth_error (b_items st) i) as [it|] eqn:En; [|inv H; reflexivity].
+    destruct r; inv H; try reflexivity. unfold attrs_at, item_at, set_item. cbn [b_items].
+    destruct (Nat.eq_dec i j) as [->|Hne]; [|rewrite nth_upd_other by exact Hne; reflexivity].
+    rewrite nth_upd_same by exact Hj. cbn [with_origin i_attrs]. rewrite (nth_error_nth _ _ dummy_item En). reflexivity.
+  - left. unfold set_header in H. destruct (lf_at st l); [|inv H; reflexivity]. destruct is_id, r; inv H; reflexivity.
+Qed.
